@@ -269,7 +269,15 @@ def set_type_validate(ctx):
     run.check(ok, 'R20', pd.where, pd.qualname, "if self.name.match(field['name']): field.update(options); record name for this resource",
               'options are merged into fields other than those whose name the pattern matches, or the names handed to the validator differ')
     init = st.methods['__init__']
-    run.check(has_stmt("self.name = re.compile(f'^{name}$')", init.node) and has_stmt('if not regex:\n    name = re.escape(name)', init.node),
+    from rules.matchers import _parts, anchored, ungrouped_regex_parts
+    from sa.deps import Facts as _Facts
+    comp_ = [a_.value for a_ in ast.walk(init.node) if isinstance(a_, ast.Assign) and pseudo(a_.targets[0]) == 'self.name'
+             and isinstance(a_.value, ast.Call) and res.external_name(a_.value) == 're.compile' and a_.value.args]
+    full_ = False
+    if len(comp_) == 1 and len(comp_[0].args) == 1 and not comp_[0].keywords:
+        parts_ = _parts(ctx, comp_[0].args[0], init, _Facts(init, include_nested=False))
+        full_ = anchored(parts_) and not ungrouped_regex_parts(parts_)
+    run.check(full_ and has_stmt('if not regex:\n    name = re.escape(name)', init.node),
               'R20', init.where, init.qualname, 'anchored pattern; re.escape when regex is off', 'the field-name pattern is not a full-string pattern')
     run.check(has_stmt('self.on_error = on_error', init.node) and has_stmt('self.options = options', init.node), 'R20', init.where, init.qualname,
               'on_error / options stored', 'set_type loses its on_error or options')
